@@ -144,6 +144,10 @@ def run_verus(group):
             body_lines = [sp['line_start'] for sp in d.get('spans', [])]
             in_ghost = line in ghost_lines and ('assertion failed' in msg or 'precondition not satisfied' in msg)
             e['proof_step'] = bool(in_ghost or (fn in proof_fns))
+            # obligations INSIDE a body (loop invariants, overflow / bounds / division side conditions, callee preconditions, termination)
+            # are the proof's own structure: after a harmless restructuring (a hoisted local, a re-indexed loop) they can fail although
+            # the contract still holds. Only the unit's own postcondition is a statement taken from the property.
+            e['internal'] = 'postcondition not satisfied' not in msg
             errors.append(e)
     res['errors'] = errors
     res['compile_errors'] = compile_errors
@@ -267,16 +271,18 @@ def run_search(binary, pid, unit, tier, seed):
     """Ask the native crate for a failing input of <unit> (exhaustive small-input search against the naive spec)."""
     if binary is None:
         return None
-    try:
-        p = subprocess.run([binary, 'search', pid, unit, 'thorough', str(seed)], capture_output=True, text=True, timeout=900)
-    except subprocess.TimeoutExpired:
-        return None
-    for ln in p.stdout.split('\n'):
-        if ln.startswith('FAIL '):
-            try:
-                return json.loads(ln[5:])
-            except Exception:
-                return {'raw': ln[5:]}
+    # the thorough sweep under three seeds: a refuted obligation deserves a longer look for a concrete failing input
+    for sd in (seed, seed + 1, seed + 2):
+        try:
+            p = subprocess.run([binary, 'search', pid, unit, 'thorough', str(sd)], capture_output=True, text=True, timeout=900)
+        except subprocess.TimeoutExpired:
+            return None
+        for ln in p.stdout.split('\n'):
+            if ln.startswith('FAIL '):
+                try:
+                    return json.loads(ln[5:])
+                except Exception:
+                    return {'raw': ln[5:]}
     return None
 
 
@@ -397,7 +403,7 @@ def main(argv):
             trusted.add(s['tag'] or ('UNTAGGED:' + s['text']))
         for e in real_errors:
             oid = obligation_id(g, e, info)
-            rec = {'obligation': oid, 'group': g, 'message': e['message'], 'at': e['text'], 'fn': e['fn'], 'rendered': e['rendered'], 'proof_step': e.get('proof_step', False)}
+            rec = {'obligation': oid, 'group': g, 'message': e['message'], 'at': e['text'], 'fn': e['fn'], 'rendered': e['rendered'], 'proof_step': e.get('proof_step', False), 'internal': e.get('internal', False)}
             k = [x for x in known if x.get('property') == pid and x.get('obligation') == oid]
             if k:
                 known_hits.append((k[0], rec))
@@ -507,6 +513,9 @@ def main(argv):
             inp = run_search(binary, pid, unit, tier, seed)
         if v.get('proof_step') and not inp:
             undecided.append('proof step no longer verifies and no failing input was found natively: %s at `%s`' % (v['obligation'], v['at'][:100]))
+            continue
+        if v.get('internal') and not inp:
+            undecided.append('an obligation inside the body (not the contract itself) no longer verifies and no failing input was found natively: %s at `%s`' % (v['obligation'], v['at'][:100]))
             continue
         path = os.path.join(REPLAYS, '%s-%s.json' % (pid, re.sub(r'[^A-Za-z0-9_.-]+', '_', v['obligation'])))
         json.dump({'property': pid, 'obligation': v['obligation'], 'verifier_message': v['message'], 'at': v['at'],
